@@ -38,6 +38,9 @@ def e2e_scenarios(ctx, rnd, base=0):
     # clause (c): the operator holds every instance as soon as it appears, for a while
     scns.append({"id": base + 80, "n": 12, "prios": 3, "rseed": rnd.randrange(1 << 30), "faults": False, "holdallms": 400,
                  "deadlinefactor": 100})
+    # a stale answer of the cloud's list call overlapping create + boot + start (pool.sync's threshold)
+    scns.append({"id": base + 85, "n": 3, "prios": 1, "rseed": rnd.randrange(1 << 30), "faults": False, "stalelist": True,
+                 "deadlinefactor": 100})
     # the scenario that targets the expected finding (StaleLockTimeout << boot timeout, deaf VM, restart)
     # (its reproduction depends on which container lands on the slow VM: two attempts)
     for k in range(2):
